@@ -297,7 +297,7 @@ def calculate_lm(steps, rate, accel, accum="clear"):
     # Calculate final position. And, adjusted final position, with step position rounded
     #   "back" by 1, in cases where direction reverses. This correction means that we look
     #   for the *first* time step at the target position, not the *last*.
-    if (t_rev <= 1) or (s_rev >= steps): # Reversal by first step or after end of move
+    if (t_rev < 1) or (temp_rate == 0) or (s_rev >= steps): # Reversal by first step or after end of move
         t_rev = -1 # Set flag: No direction reversal during this move.
         if initial_rate_negative:
             pos_final = -steps
